@@ -165,9 +165,15 @@ type simOpener struct{}
 
 var curBucket *simBucket
 
-func (simOpener) OpenBucketURL(_ context.Context, _ *url.URL) (*blob.Bucket, error) {
+func (simOpener) OpenBucketURL(_ context.Context, u *url.URL) (*blob.Bucket, error) {
+	if acct := u.Query().Get("acct"); acct != "" && byAccount[acct] != nil {
+		return blob.NewBucket(byAccount[acct]), nil
+	}
 	return blob.NewBucket(curBucket), nil
 }
+
+// buckets of the two-account scenario (same bucket name, different accounts selected by the URL query)
+var byAccount = map[string]*simBucket{}
 
 var registerOnce sync.Once
 
@@ -449,6 +455,112 @@ func blobProvSim(r *simcore.Run) {
 	})
 }
 
+// blobTwoAccountsSim: two configured buckets that differ only in the URL query (the same bucket name in two storage
+// accounts / endpoints), partly with equal object keys. Each bucket's rule sets must follow its own objects only, and
+// polls without a change must not reload anything.
+func blobTwoAccountsSim(r *simcore.Run) {
+	registerOnce.Do(func() { blob.DefaultURLMux().RegisterBucket("simblob", simOpener{}) })
+	bubble.Run(r, func() {
+		s := r.Src
+		const interval = 2 * time.Minute
+		rec := provsim.NewRecorder(r, "cloud_blob")
+		rec.Silent = true
+		accts := []string{"1", "2"}
+		keys := []string{"svc/a.yaml", "svc/b.yaml"}
+		versions := map[string]int{}
+		var confs []any
+		for _, a := range accts {
+			b := &simBucket{objects: map[string]*simObject{}, fault: func(string, string) error { return nil }}
+			b.resetPoll()
+			byAccount[a] = b
+			confs = append(confs, map[string]any{"url": "simblob://bucket?acct=" + a, "prefix": "svc"})
+		}
+		defer func() { byAccount = map[string]*simBucket{} }()
+		put := func(a, k string, present bool) {
+			if !present {
+				delete(byAccount[a].objects, k)
+				return
+			}
+			versions[a+k]++
+			name := "acct" + a + strings.TrimSuffix(strings.TrimPrefix(k, "svc/"), ".yaml")
+			byAccount[a].objects[k] = &simObject{data: []byte(provsim.RuleSetYAML(name, versions[a+k], 1)), ctype: "application/yaml", modTime: time.Now()}
+		}
+		for _, a := range accts {
+			for _, k := range keys {
+				if s.Draw(2, "initial") == 1 {
+					put(a, k, true)
+				}
+			}
+		}
+		conf := &config.Configuration{Providers: config.RuleProviders{CloudBlob: map[string]any{"watch_interval": interval.String(), "buckets": confs}}}
+		prov, err := newProvider(conf, rec, zerolog.Nop())
+		if err != nil {
+			r.Fail("infra", "provider", "%v", err)
+			return
+		}
+		if err := prov.Start(context.Background()); err != nil {
+			r.Fail("infra", "provider-start", "%v", err)
+			return
+		}
+		defer prov.Stop(context.Background())
+		source := func(a, k string) string { return k + "@simblob://bucket?acct=" + a + "/svc" }
+		check := func(when string, changed bool, callsBefore int) bool {
+			synctest.Wait()
+			for _, a := range accts {
+				for _, k := range keys {
+					want := ""
+					if o, ok := byAccount[a].objects[k]; ok {
+						_, want = provsim.Classify(o.data)
+					}
+					if got := rec.Active(source(a, k)); got != want {
+						r.Fail("active-set-diverges-from-observed-content", "cloud_blob/two-accounts", "%s: account %s object %s has %q active, its bucket holds %q (active sources %v)", when, a, k, got, want, rec.ActiveSources())
+						return false
+					}
+				}
+			}
+			if !changed && rec.Calls != callsBefore {
+				r.Fail("unchanged-content-reloaded", "cloud_blob/two-accounts", "%s: nothing changed in any bucket, but the processor was called %d times: %v", when, rec.Calls-callsBefore, rec.Log[len(rec.Log)-(rec.Calls-callsBefore):])
+				return false
+			}
+			return true
+		}
+		time.Sleep(time.Second)
+		if !check("after start", true, 0) {
+			return
+		}
+		for step := 0; step < 2+s.Draw(5, "steps"); step++ {
+			changed := false
+			var d []string
+			if s.Draw(3, "idle-step") != 0 {
+				for _, a := range accts {
+					for _, k := range keys {
+						switch s.Draw(4, "change") {
+						case 1:
+							put(a, k, true)
+							changed = true
+							d = append(d, a+":"+k+"=new")
+						case 2:
+							if _, ok := byAccount[a].objects[k]; ok {
+								put(a, k, false)
+								changed = true
+								d = append(d, a+":"+k+"=gone")
+							}
+						}
+					}
+				}
+			}
+			r.Logf("step %d: %v", step, d)
+			before := rec.Calls
+			time.Sleep(interval)
+			if !check(fmt.Sprintf("after step %d", step), changed, before) {
+				return
+			}
+		}
+		r.Count("processor-calls", rec.Calls)
+		r.Distinct("nontrivial", r.Trace())
+	})
+}
+
 func blobLast(m *provsim.SourceModel, single bool) string {
 	mode := "prefix"
 	if single {
@@ -473,8 +585,16 @@ func blobTail(l []string, n int) []string {
 
 var _ = io.EOF
 
+func blobSim(r *simcore.Run) {
+	if r.Src.Draw(5, "two-accounts-scenario") == 4 {
+		blobTwoAccountsSim(r)
+		return
+	}
+	blobProvSim(r)
+}
+
 func TestVerifC18Blob(t *testing.T) {
-	if err := simcore.Main(t, simcore.Spec{Harness: "provider-blob", Property: "C18", Sim: blobProvSim, ShrinkBudget: 200}); err != nil {
+	if err := simcore.Main(t, simcore.Spec{Harness: "provider-blob", Property: "C18", Sim: blobSim, ShrinkBudget: 200}); err != nil {
 		t.Fatalf("INFRA: %v", err)
 	}
 }
